@@ -252,9 +252,20 @@ func renderAmongM(files map[string]string, data interface{}, debug bool, extra m
 		if r := eng.Load(""); r.Class != "ok" {
 			return r
 		}
-		return eng.RenderBeforeRead(context.Background(), "t", data, otherName)
+		res := eng.RenderBeforeRead(context.Background(), "t", data, otherName)
+		// the same file compiled a second time by the same engine (a filtered load after the first one), rendered again: a template
+		// is a function of its file, not of how often the file was read
+		if res.Class == "ok" {
+			if r := eng.Load("t"); r.Class != "ok" {
+				return Result{Class: "recompile-differs", Msg: "filtered reload failed: " + r.Msg}
+			}
+			if again := eng.RenderBeforeRead(context.Background(), "t", data, otherName); again != res {
+				return Result{Class: "recompile-differs", Out: again.Out, Msg: "first render: " + res.Out}
+			}
+		}
+		return res
 	}
-	// debug mode loads inside Render
+	// debug mode loads inside Render (every render compiles the file again)
 	var res Result
 	func() {
 		defer func() {
@@ -263,6 +274,11 @@ func renderAmongM(files map[string]string, data interface{}, debug bool, extra m
 			}
 		}()
 		res = eng.RenderBeforeRead(context.Background(), "t", data, otherName)
+		if res.Class == "ok" {
+			if again := eng.RenderBeforeRead(context.Background(), "t", data, otherName); again != res {
+				res = Result{Class: "recompile-differs", Out: again.Out, Msg: "first render: " + res.Out}
+			}
+		}
 	}()
 	return res
 }
